@@ -340,9 +340,15 @@ pub fn dump_book(book: &Spreadsheet, sec: Sections) -> Dump {
         let mut names: BTreeMap<String, Vec<String>> = BTreeMap::new();
         // names are re-homed between the workbook and the sheet their first address points to when a
         // file is loaded; what a user sees is (scope, name) -> refers-to, whichever collection holds it
-        let all = book.get_defined_names().iter().chain(sheets.iter().flat_map(|s| s.get_defined_names().iter()));
-        for n in all {
-            let scope = if n.has_local_sheet_id() { format!("local{}", n.get_local_sheet_id()) } else { "global".into() };
+        // a sheet-scoped name held by a sheet is scoped to that sheet (the writer emits the holder's index, the stored
+        // index may be stale after sheets were added or removed); one held by the workbook keeps its stored index
+        let all = book.get_defined_names().iter().map(|n| (None, n)).chain(sheets.iter().enumerate().flat_map(|(i, s)| s.get_defined_names().iter().map(move |n| (Some(i), n))));
+        for (holder, n) in all {
+            let scope = match (n.has_local_sheet_id(), holder) {
+                (false, _) => "global".to_string(),
+                (true, Some(i)) => format!("local{}", i),
+                (true, None) => format!("local{}", n.get_local_sheet_id()),
+            };
             names.entry(format!("{}/{}", scope, n.get_name())).or_default().push(n.get_address());
         }
         for (k, mut v) in names {
